@@ -1,11 +1,11 @@
 package main
 
 import (
-	"verifharness/sessrep"
 	"encoding/json"
 	"fmt"
 	"strings"
 	"sync"
+	"verifharness/sessrep"
 
 	smtp "github.com/emersion/go-smtp"
 
